@@ -582,6 +582,66 @@ func (g *gen) history(i int) ([]string, string, bool) {
 		g.add("census")
 		toks := g.flat(cfg)
 		return toks, replayTag(toks), true
+	case kind < 26: // several clients of one ufrag on one packet conn: per-peer order, replies per peer
+		if g.p(30) {
+			cfg[2] = "1"
+		}
+		u := ufragPool[g.rnd(4)]
+		is6 := g.p(25)
+		ip := g.pickIP(is6)
+		first := g.p(50)
+		if first {
+			g.add("get", "0", Hex(u), B(is6), Hex(ip))
+		}
+		n := 2 + g.rnd(3)
+		var cs []*gconn
+		for k := 0; k < n; k++ {
+			cn := &gconn{id: k, raddr: g.newRaddrForce(is6), is6: is6, lip: ip, ufrag: u, st: 1}
+			cs = append(cs, cn)
+			g.conns = append(g.conns, cn)
+			g.add("acc", strconv.Itoa(k), Hex(cn.raddr), B(is6), Hex(ip), "1", strconv.Itoa([]int{1, 3, 64, 1 << 20}[g.rnd(4)]))
+			raw := buildStun(g.c, stun.MethodBinding, stun.ClassRequest, u+":r"+strconv.Itoa(k), true, 0)
+			g.add("ff", strconv.Itoa(k), strconv.Itoa(len(raw)), "1", "1", Hex(u+":r"+strconv.Itoa(k)), Hex(string(raw)))
+		}
+		if !first {
+			g.add("get", "0", Hex(u), B(is6), Hex(ip))
+		}
+		g.handles = append(g.handles, &ghandle{id: 0, u: u, is6: is6, ip: ip})
+		g.attached = true
+		m := 6 + g.rnd(14)
+		for k := 0; k < m; k++ {
+			cn := cs[g.rnd(len(cs))]
+			switch g.rnd(6) {
+			case 0, 1:
+				g.add("send", strconv.Itoa(cn.id), Hex(g.payload()))
+			case 2:
+				g.add("wr", "0", Hex(cn.raddr), Hex(g.payload()))
+				g.c.Count("op:wr")
+			case 3:
+				g.add("crecv", strconv.Itoa(cn.id))
+			default:
+				g.add("rd", "0")
+			}
+		}
+		for _, cn := range cs {
+			g.add("wr", "0", Hex(cn.raddr), Hex("to-"+strconv.Itoa(cn.id)))
+		}
+		for _, cn := range cs {
+			g.add("crecv", strconv.Itoa(cn.id))
+			g.add("crecv", strconv.Itoa(cn.id))
+			g.add("crecv", strconv.Itoa(cn.id))
+		}
+		for k := 0; k < m+n; k++ {
+			g.add("rd", "0")
+		}
+		if g.p(50) {
+			g.add("rm", Hex(u))
+			g.removal = true
+		}
+		g.tail()
+		g.c.Count("hist:fan-in")
+		toks := g.flat(cfg)
+		return toks, replayTag(toks), g.removal || g.closeOpen
 	}
 	// general history
 	if g.p(20) {
